@@ -82,9 +82,14 @@ def gen_oracle_case(ctx, dspecs, backends=("cbc", "glpk"), families=None):
     labels = cases.dissim_labels(dspec)
     n = rng.choice([2, 2, 3, 3, 4, 5])
     mx = ORACLE_MAX_UNITS[n]
-    fam = rng.choice(families) if families else (rng.choice(["mixeddur", "longoverlap"]) if rng.random() < 0.25 else None)
-    cspec = cases.gen_continuum(rng, n_annot=n, max_units=mx if rng.random() < 0.6 else rng.randint(1, mx),
-                                labels=labels or cases.LABELS_SMALL, min_total=2, family=fam)
+    fam = rng.choice(families) if families else (rng.choice(["mixeddur", "longoverlap", "dense", "dense"]) if rng.random() < 0.3 else None)
+    if fam == "dense":      # many overlapping units, >= 3 annotators: the integer programme needs branching
+        n = rng.choice([3, 4, 4, 5])
+        cspec = cases.gen_continuum(rng, n_annot=n, sizes=[ORACLE_MAX_UNITS[n] if n > 3 else 8] * n,
+                                    labels=labels or cases.LABELS_SMALL, family="dense")
+    else:
+        cspec = cases.gen_continuum(rng, n_annot=n, max_units=mx if rng.random() < 0.6 else rng.randint(1, mx),
+                                    labels=labels or cases.LABELS_SMALL, min_total=2, family=fam)
     return {"continuum": cspec, "dissim": dspec, "backend": rng.choice(list(backends))}
 
 
